@@ -126,7 +126,7 @@ theorem strict_leading_zero_rejected (lc : Libc) (t : Tok) (pb : Bytes) (d : UIn
     classifyNum lc t pb = .error .number := by
   unfold classifyNum
   subst hpb
-  cases neg <;> simp [h, hd]
+  cases neg <;> simp [h, hd, startsWithDigit]
 
 /-! ### trailing bytes after the value -/
 
